@@ -1,6 +1,7 @@
 package main
 
 import (
+	"errors"
 	"fmt"
 	"math"
 	"math/big"
@@ -183,20 +184,106 @@ type engSession struct {
 	stat  map[string]int
 	seq   int
 	maskOverride int // >0: statistics mask for EUpdate
+	flaky        *flakyCtl
+	frng         *Rng // non-nil: storage faults are injected into some check-ins and proposals
 	strictDaily  bool // the C17 discipline holds in this session: one update per day, same-day check-ins
 	c17total     [3]float64 // reported flights, travellers(not summed), distance over the run
 }
 
 var sessionCounter int
 
+// ---------- storage faults inside ordinary histories ----------
+// flakyDB fails the next armed reads / writes of its tables.  A check-in or a proposal whose store call
+// failed must report an error and leave everything as it was, so such an operation is simply left
+// out of the script the model replays.
+type flakyCtl struct {
+	failGets, failPuts int // how many of the next Get / Put calls fail
+	hits               int // how many armed calls have failed since arming
+}
+type flakyDB struct {
+	inner db.Database
+	ctl   *flakyCtl
+}
+type flakyTable struct {
+	inner db.Table
+	ctl   *flakyCtl
+}
+
+var errFlaky = errors.New("verif: injected storage failure")
+
+func (d *flakyDB) OpenTable(n string) (db.Table, error) {
+	t, err := d.inner.OpenTable(n)
+	if err != nil {
+		return nil, err
+	}
+	return &flakyTable{t, d.ctl}, nil
+}
+func (d *flakyDB) CreateTable(n string) (db.Table, error) {
+	t, err := d.inner.CreateTable(n)
+	if err != nil {
+		return nil, err
+	}
+	return &flakyTable{t, d.ctl}, nil
+}
+func (d *flakyDB) CloseTable(n string) error { return d.inner.CloseTable(n) }
+func (d *flakyDB) DropTable(n string) error  { return d.inner.DropTable(n) }
+func (d *flakyDB) Release() error            { return d.inner.Release() }
+func (t *flakyTable) Get(k string, x db.Serialize) error {
+	if t.ctl.failGets > 0 {
+		t.ctl.failGets--
+		t.ctl.hits++
+		return errFlaky
+	}
+	return t.inner.Get(k, x)
+}
+func (t *flakyTable) Put(k string, x db.Serialize) error {
+	if t.ctl.failPuts > 0 {
+		t.ctl.failPuts--
+		t.ctl.hits++
+		return errFlaky
+	}
+	return t.inner.Put(k, x)
+}
+func (t *flakyTable) Delete(k string) error                      { return t.inner.Delete(k) }
+func (t *flakyTable) NewIterator(p string) (db.Iterator, error)  { return t.inner.NewIterator(p) }
+func (t *flakyTable) TakeSnapshot() (db.Snapshot, error)         { return t.inner.TakeSnapshot() }
+func (t *flakyTable) MakeBatch(n int) (db.BatchWrite, error)     { return t.inner.MakeBatch(n) }
+
+// arm decides (from the session's own fault stream) whether the next operation meets a storage fault
+func (s *engSession) arm(likely bool, allowPut bool) string {
+	if s.frng == nil {
+		return ""
+	}
+	den := 14
+	if likely {
+		den = 3
+	}
+	if !s.frng.Chance(1, den) {
+		return ""
+	}
+	s.flaky.hits = 0
+	if allowPut && s.frng.Chance(1, 3) {
+		s.flaky.failPuts = 1
+		return "put"
+	}
+	k := []int{1, 1, 2, 3, 3, 4}[s.frng.Intn(6)]
+	s.flaky.failGets = k
+	return fmt.Sprintf("get x%d", k)
+}
+func (s *engSession) disarm() bool {
+	h := s.flaky.hits
+	s.flaky.failGets, s.flaky.failPuts, s.flaky.hits = 0, 0, 0
+	return h > 0
+}
+
 func newEngSession(workdir string, proj string) *engSession {
 	sessionCounter++
 	d := filepath.Join(workdir, fmt.Sprintf("db%05d", sessionCounter))
 	os.RemoveAll(d)
 	os.MkdirAll(d, 0o755)
-	s := &engSession{dir: d, proj: proj, stat: map[string]int{}}
+	s := &engSession{dir: d, proj: proj, stat: map[string]int{}, flaky: &flakyCtl{}}
 	s.ldb = db.NewLevelDB(d)
-	s.eng = flap.NewEngine(s.ldb, 0, d)
+	s.eng = flap.NewEngine(&flakyDB{s.ldb, s.flaky}, 0, d)
 	return s
 }
 
@@ -211,10 +298,22 @@ func (s *engSession) restart() {
 	s.eng.Release()
 	s.ldb.Release()
 	s.ldb = db.NewLevelDB(s.dir)
-	s.eng = flap.NewEngine(s.ldb, 0, s.dir)
+	s.eng = flap.NewEngine(&flakyDB{s.ldb, s.flaky}, 0, s.dir)
 	s.coq = append(s.coq, "ERestart")
 	s.ops = append(s.ops, eOp{"op": "restart"})
 	s.stat["restarts"]++
+}
+
+// kill: the process dies - the database files are closed but Engine.Release (which saves the administrator
+// state) never runs; the next session loads what the last clean shutdown saved.  Not modelled: histories
+// with kills are judged by the Go-side monitors only.
+func (s *engSession) kill() {
+	s.ldb.Release()
+	s.ldb = db.NewLevelDB(s.dir)
+	s.eng = flap.NewEngine(&flakyDB{s.ldb, s.flaky}, 0, s.dir)
+	s.coq = append(s.coq, "ERestart")
+	s.ops = append(s.ops, eOp{"op": "kill"})
+	s.stat["kills"]++
 }
 
 func (s *engSession) fail(prop, sig, what string) {
@@ -450,7 +549,29 @@ func (s *engSession) submit(i int, fs []flap.VerifFlight, now uint64, debit bool
 	for _, f := range fs {
 		real = append(real, flap.VerifToFlight(f))
 	}
-	code := engErrCode(s.eng.SubmitFlights(s.trav[i].pp, real, flap.EpochTime(now), debit))
+	fault := ""
+	if len(fs) > 0 && (!had || before.Kept.Clearance == 0) {
+		fault = s.arm(expectGrounded, true)
+	}
+	subErr := s.eng.SubmitFlights(s.trav[i].pp, real, flap.EpochTime(now), debit)
+	if fault != "" && s.disarm() {
+		// a store call of this check-in failed: it must report an error and change nothing
+		code := engErrCode(subErr)
+		s.stat["checkins_with_storage_fault"]++
+		s.ops = append(s.ops, eOp{"op": "submit", "t": i, "fs": fs, "now": now, "debit": debit, "res": code, "fault": fault})
+		after, hasAfter := s.get(i)
+		if code == 0 {
+			s.fail("C01", "failed-store-call-reported-as-accepted-checkin", fmt.Sprintf("check-in during which the travellers table failed (%s) returned nil", fault))
+			if expectGrounded {
+				s.fail("C02", "grounded-traveller-accepted", fmt.Sprintf("traveller not mid-trip, balance %v, no due kept promise, record unreadable (%s): the check-in at %d was accepted", float64(before.Balance), fault, now))
+			}
+		}
+		if had != hasAfter || (had && hashTrav(&after) != beforeHash) {
+			s.fail("C01", "refused-checkin-changed-record", fmt.Sprintf("SubmitFlights met a storage failure (%s, result %d) but the traveller record read back afterwards changed", fault, code))
+		}
+		return code
+	}
+	code := engErrCode(subErr)
 	s.coq = append(s.coq, fmt.Sprintf("ESubmit %s %s %d %s %d", s.trav[i].key, coqFlights(fs), now, Bool(debit), code))
 	s.ops = append(s.ops, eOp{"op": "submit", "t": i, "fs": fs, "now": now, "debit": debit, "res": code})
 	s.stat["submits"]++
@@ -773,6 +894,10 @@ func (s *engSession) propose(i int, fs []flap.VerifFlight, tripEnd, now uint64) 
 		real = append(real, flap.VerifToFlight(f))
 	}
 	ch := make(chan proposeOut, 1)
+	fault := ""
+	if tb, ok := s.get(i); ok && tb.Promises.VerifEntries()[0].TripStart != 0 {
+		fault = s.arm(true, false) // the record of a traveller who holds promises cannot be read
+	}
 	go func() {
 		pp, err := s.eng.Propose(s.trav[i].pp, real, flap.EpochTime(tripEnd), flap.EpochTime(now))
 		ch <- proposeOut{pp, err}
@@ -784,6 +909,19 @@ func (s *engSession) propose(i int, fs []flap.VerifFlight, tripEnd, now uint64) 
 		code = engErrCode(out.err)
 	case <-time.After(8 * time.Second):
 		s.fail("C15", "propose-hangs", fmt.Sprintf("Propose did not return within 8 s (traveller %d, now %d)", i, now))
+	}
+	if fault != "" && s.disarm() {
+		s.stat["proposals_with_storage_fault"]++
+		if code != 0 {
+			// refused because the record could not be read: nothing happened, the model is not asked
+			s.ops = append(s.ops, eOp{"op": "propose", "t": i, "fs": fs, "tripEnd": tripEnd, "now": now, "res": code, "fault": fault})
+			if s.tableDigest() != tdBefore || hashAdmin(s.eng.Administrator) != adBefore {
+				s.fail("C10", "propose-changed-stored-state", fmt.Sprintf("Propose (result %d, storage failure %s) changed the travellers table or the administrator state", code, fault))
+			}
+			return code, -1
+		}
+		s.fail("C09", "proposal-ignores-the-promises-made-before", fmt.Sprintf("Propose for a traveller whose stored record holds promises but could not be read (%s) returned a proposal worked out without them", fault))
+		s.fail("C10", "proposal-issued-although-record-unreadable", fmt.Sprintf("Propose for a traveller whose stored record (with promises) could not be read (%s) returned a proposal", fault))
 	}
 	slot := -1
 	h := uint64(0)
